@@ -1,1 +1,231 @@
+(* C18_Proofs.v — proofs of the C18 theorems (restated in C18_Props.v). *)
+From Coq Require Import Lia.
 From V Require Import C18_Spec.
+Open Scope N_scope.
+
+(* ====================================================================== *)
+(* 1. Errors                                                               *)
+(* ====================================================================== *)
+
+(* ---- the type name: the model's scan for the last '/' is the declarative one ---- *)
+Lemma existsb_slash_false r : existsb (N.eqb slash) r = false -> ~ In slash r.
+Proof.
+  intros E HI. assert (existsb (N.eqb slash) r = true); [|congruence].
+  apply existsb_exists. exists slash. split; [exact HI|apply N.eqb_refl].
+Qed.
+
+Lemma existsb_slash_true r : ~ In slash r -> existsb (N.eqb slash) r = false.
+Proof.
+  intros H. destruct (existsb (N.eqb slash) r) eqn:E; [|reflexivity].
+  apply existsb_exists in E. destruct E as (x & Hx & Ex). apply N.eqb_eq in Ex. subst x. contradiction.
+Qed.
+
+Lemma split_on_two r : existsb (N.eqb slash) r = true ->
+  exists w w' ws, split_on slash r = w :: w' :: ws.
+Proof.
+  induction r as [|c r IH]; cbn [existsb split_on]; [discriminate|].
+  intros H. destruct (N.eqb_spec c slash) as [->|Hne].
+  - pose proof (split_on_nonempty slash r) as NE.
+    destruct (split_on slash r) as [|w ws]; [congruence|]. exists [], w, ws. reflexivity.
+  - assert (E : N.eqb slash c = false) by (apply N.eqb_neq; congruence).
+    rewrite E in H. cbn [orb] in H. destruct (IH H) as (w & w' & ws & ->).
+    exists (c :: w), w', ws. reflexivity.
+Qed.
+
+Lemma type_name_spec url : type_name url = type_of url.
+Proof.
+  unfold type_of. induction url as [|c r IH]; [reflexivity|].
+  cbn [type_name split_on]. destruct (existsb (N.eqb slash) r) eqn:E.
+  - rewrite IH. destruct (split_on_two r E) as (w & w' & ws & ->).
+    destruct (N.eqb c slash); reflexivity.
+  - rewrite (split_on_no_sep slash r) by (apply existsb_slash_false; exact E).
+    destruct (N.eqb c slash); reflexivity.
+Qed.
+
+Lemma type_name_noslash url : ~ In slash (type_name url).
+Proof.
+  induction url as [|c r IH]; [intros []|].
+  cbn [type_name]. destruct (existsb (N.eqb slash) r) eqn:E; [exact IH|].
+  apply existsb_slash_false in E.
+  destruct (N.eqb_spec c slash) as [->|Hne]; [exact E|].
+  intros [H|H]; [congruence|contradiction].
+Qed.
+
+Lemma type_name_app pre name : ~ In slash name -> type_name (pre ++ slash :: name) = name.
+Proof.
+  intros H. induction pre as [|c p IH].
+  - cbn [app type_name]. rewrite existsb_slash_true by exact H. rewrite N.eqb_refl. reflexivity.
+  - cbn [app type_name].
+    assert (E : existsb (N.eqb slash) (p ++ slash :: name) = true).
+    { apply existsb_exists. exists slash. split; [apply in_or_app; right; left; reflexivity|apply N.eqb_refl]. }
+    rewrite E. exact IH.
+Qed.
+
+Lemma type_of_noslash url : ~ In slash (type_of url).
+Proof. rewrite <- type_name_spec. apply type_name_noslash. Qed.
+
+(* the prefix the repository restores is dropped again by the type name: type-URL prefix restoration *)
+Lemma type_of_prefixed name : ~ In slash name -> type_of (default_prefix ++ name) = name.
+Proof.
+  intros H. rewrite <- type_name_spec.
+  change default_prefix with (bs "type.googleapis.com" ++ [slash]).
+  rewrite <- app_assoc. apply type_name_app. exact H.
+Qed.
+
+Lemma type_of_canonical url : canonical_url url -> default_prefix ++ type_of url = url.
+Proof. intros (name & -> & H). rewrite type_of_prefixed by exact H. reflexivity. Qed.
+
+(* ---- int32 / uint32 casts ---- *)
+Lemma to_i32_to_u32 z : int32 z -> to_i32 (to_u32 z) = z.
+Proof.
+  unfold int32, to_i32, to_u32, two32, two31. intros H.
+  rewrite Z.mod_mod by lia.
+  destruct (Z.ltb_spec (z mod 4294967296) 2147483648) as [L|L];
+    Z.div_mod_to_equations; lia.
+Qed.
+
+Lemma to_u32_to_i32 z : uint32 z -> to_u32 (to_i32 z) = z.
+Proof.
+  unfold uint32, to_i32, to_u32, two32, two31. intros H.
+  rewrite (Z.mod_small z) by lia.
+  destruct (Z.ltb_spec z 2147483648) as [L|L]; Z.div_mod_to_equations; lia.
+Qed.
+
+Lemma same_detail_refl a : same_detail a a.
+Proof. split; reflexivity. Qed.
+Lemma Forall2_same_detail_refl l : Forall2 same_detail l l.
+Proof. induction l; constructor; [apply same_detail_refl|assumption]. Qed.
+Lemma same_error_refl e : same_error e e.
+Proof. repeat split. apply Forall2_same_detail_refl. Qed.
+
+Section ErrorProofs.
+  Variable new_detail : any -> option cdetail.
+  Variable d_type : cdetail -> bytes.
+  Variable d_bytes : cdetail -> bytes.
+  Hypothesis H_detail : detail_contract new_detail d_type d_bytes.
+
+  Let c_of_p := connect_of_proto new_detail.
+  Let p_of_c := proto_of_connect d_type d_bytes.
+  Let view := cerr_view d_type d_bytes.
+
+  Lemma new_details_total l :
+    exists ds, new_details new_detail l = Some ds /\
+               map (fun d => (d_type d, d_bytes d)) ds = map (fun a => (type_of (fst a), snd a)) l.
+  Proof.
+    induction l as [|a l (ds & E & M)]; [exists []; split; reflexivity|].
+    destruct (H_detail a) as (d & Ed & Ht & Hb).
+    exists (d :: ds). cbn [new_details map]. rewrite Ed, E, M, Ht, Hb. split; reflexivity.
+  Qed.
+
+  (* proto -> connect: what the Connect error shows *)
+  Lemma connect_view_proof e :
+    view (c_of_p e) = (to_u32 (p_code e), message_of e, map (fun a => (type_of (fst a), snd a)) (p_details e)).
+  Proof.
+    unfold view, c_of_p, cerr_view, connect_of_proto.
+    destruct (new_details_total (p_details e)) as (ds & -> & M). cbn [c_code c_msg c_details].
+    rewrite M. reflexivity.
+  Qed.
+
+  Lemma restored_details ds l :
+    map (fun d => (d_type d, d_bytes d)) ds = map (fun a => (type_of (fst a), snd a)) l ->
+    Forall2 same_detail (map (fun d => (default_prefix ++ d_type d, d_bytes d)) ds) l /\
+    (canonical_details l -> map (fun d => (default_prefix ++ d_type d, d_bytes d)) ds = l).
+  Proof.
+    revert l; induction ds as [|d ds IH]; intros [|a l] M; try discriminate.
+    - split; [constructor|reflexivity].
+    - cbn [map] in M. inversion M as [[Ht Hb Hr]]. destruct (IH l Hr) as (F & C). split.
+      + cbn [map]. constructor; [|exact F]. split; cbn [fst snd]; [|exact Hb].
+        rewrite Ht. apply type_of_prefixed, type_of_noslash.
+      + intros HC. inversion HC as [|? ? Ha Hl]; subst. cbn [map]. rewrite (C Hl).
+        rewrite Ht, Hb. rewrite type_of_canonical by exact Ha. destruct a; reflexivity.
+  Qed.
+
+  (* test-case form -> Connect form -> test-case form *)
+  Lemma err_roundtrip_connect_proof e :
+    int32 (p_code e) ->
+    same_error (p_of_c (c_of_p e)) e /\
+    (canonical_details (p_details e) ->
+     p_of_c (c_of_p e) = PErr (p_code e) (Some (message_of e)) (p_details e)).
+  Proof.
+    intros Hc. unfold p_of_c, c_of_p, connect_of_proto, proto_of_connect.
+    destruct (new_details_total (p_details e)) as (ds & -> & M). cbn [c_code c_msg c_details].
+    destruct (restored_details ds (p_details e) M) as (F & C).
+    rewrite (to_i32_to_u32 _ Hc). split.
+    - split; [reflexivity|]. split; [reflexivity|exact F].
+    - intros HC. rewrite (C HC). reflexivity.
+  Qed.
+
+  (* Connect form -> test-case form -> Connect form, as far as an observer can tell *)
+  Lemma err_roundtrip_proto_proof c :
+    uint32 (c_code c) -> Forall (fun d => ~ In slash (d_type d)) (c_details c) ->
+    view (c_of_p (p_of_c c)) = view c.
+  Proof.
+    intros Hc Hd. unfold view. fold c_of_p. rewrite connect_view_proof.
+    unfold p_of_c, proto_of_connect, message_of, cerr_view. cbn [p_code p_msg p_details get_msg].
+    rewrite (to_u32_to_i32 _ Hc). f_equal. rewrite map_map.
+    apply map_ext_in. intros d Hin. cbn [fst snd].
+    rewrite Forall_forall in Hd. rewrite type_of_prefixed by (apply Hd; exact Hin). reflexivity.
+  Qed.
+
+  (* any Go error -> Connect / test-case form *)
+  Lemma err_from_go_proof :
+    (forall c, connect_of_error (GoConnect c) = c) /\
+    (forall t c, connect_of_error (GoWrapped t c) = c) /\
+    (forall t, view (connect_of_error (GoPlain t)) = (2%Z, t, [])) /\
+    (forall g, proto_of_error d_type d_bytes g = p_of_c (connect_of_error g)) /\
+    (forall e t, int32 (p_code e) ->
+       same_error (proto_of_error d_type d_bytes (GoConnect (c_of_p e))) e /\
+       same_error (proto_of_error d_type d_bytes (GoWrapped t (c_of_p e))) e).
+  Proof.
+    repeat split; try reflexivity.
+    - intros [t|c|t c]; reflexivity.
+    - cbn [proto_of_error]. apply (err_roundtrip_connect_proof e H).
+    - apply (err_roundtrip_connect_proof e H).
+    - apply (err_roundtrip_connect_proof e H).
+    - cbn [proto_of_error]. apply (err_roundtrip_connect_proof e H).
+    - apply (err_roundtrip_connect_proof e H).
+    - apply (err_roundtrip_connect_proof e H).
+  Qed.
+End ErrorProofs.
+
+(* test-case form -> gRPC status -> test-case form *)
+Lemma to_u32_zero z : int32 z -> ((to_u32 z =? 0)%Z = true <-> z = 0%Z).
+Proof.
+  unfold int32, to_u32, two32. intros H. rewrite Z.eqb_eq. split; [|intros ->; reflexivity].
+  intros E. Z.div_mod_to_equations. lia.
+Qed.
+
+Lemma err_roundtrip_grpc_proof e :
+  int32 (p_code e) ->
+  (grpc_of_proto e = None <-> p_code e = 0%Z) /\
+  (p_code e <> 0%Z ->
+   exists s, grpc_of_proto e = Some s /\
+             (g_code s, g_msg s, g_details s) = (p_code e, message_of e, p_details e) /\
+             proto_of_grpc (GrpcStatus s) = PErr (p_code e) (Some (message_of e)) (p_details e) /\
+             same_error (proto_of_grpc (GrpcStatus s)) e /\
+             (forall t, p_code (proto_of_grpc (GrpcWrapped t s)) = p_code e /\
+                        p_details (proto_of_grpc (GrpcWrapped t s)) = p_details e)).
+Proof.
+  intros Hc. pose proof (to_u32_zero _ Hc) as Z0. unfold grpc_of_proto.
+  destruct ((to_u32 (p_code e) =? 0)%Z) eqn:E.
+  - split; [split; [intros _; apply Z0; reflexivity|reflexivity]|].
+    intros NZ. exfalso. apply NZ, Z0. reflexivity.
+  - split; [split; [discriminate|intros Hz; apply Z0 in Hz; discriminate]|].
+    intros _. eexists. split; [reflexivity|]. cbn [g_code g_msg g_details proto_of_grpc p_code p_details].
+    rewrite (to_i32_to_u32 _ Hc). repeat split. apply Forall2_same_detail_refl.
+Qed.
+
+(* gRPC status -> test-case form -> gRPC status *)
+Lemma err_roundtrip_status_proof s :
+  int32 (g_code s) -> g_code s <> 0%Z -> grpc_of_proto (proto_of_grpc (GrpcStatus s)) = Some s.
+Proof.
+  intros Hc NZ. unfold grpc_of_proto, proto_of_grpc. cbn [p_code p_msg p_details get_msg].
+  rewrite (to_i32_to_u32 _ Hc).
+  destruct ((to_u32 (g_code s) =? 0)%Z) eqn:E.
+  - exfalso. apply NZ. apply (to_u32_zero _ Hc). exact E.
+  - destruct s; reflexivity.
+Qed.
+
+(* an error that is no status error: code unknown, the text as message *)
+Lemma err_plain_grpc_proof t : proto_of_grpc (GrpcPlain t) = PErr 2 (Some t) [].
+Proof. reflexivity. Qed.
